@@ -30,8 +30,9 @@ def reaches(fn, expr, wanted, depth=6, _seen=None):
     return found
 
 
-def expand(fn, expr, depth=6):
-    """expr with single-definition locals substituted by their definitions (a new tree; originals untouched)"""
+def expand(fn, expr, depth=6, stop=()):
+    """expr with single-definition locals substituted by their definitions (a new tree; originals untouched).
+    Names in `stop` are kept (use it for objects that are mutated after their definition: hashers, lists)."""
     import copy
 
     class Sub(ast.NodeTransformer):
@@ -39,7 +40,8 @@ def expand(fn, expr, depth=6):
             self.depth = depth
 
         def visit_Name(self, node):
-            if self.depth <= 0 or not isinstance(node.ctx, ast.Load) or node.id in params(fn, skip_self=False):
+            if self.depth <= 0 or not isinstance(node.ctx, ast.Load) or node.id in params(fn, skip_self=False) \
+                    or node.id in stop:
                 return node
             defs = local_defs(fn, node.id)
             if len(defs) == 1 and defs[0] is not OPAQUE:
